@@ -2,7 +2,7 @@
 (* Concrete little-endian byte memory and store/load histories (C07).        *)
 (*                                                                            *)
 (* An action is a record  [op, w, b, off, vk, k]:                             *)
-(*   op  "st" | "ld"          w   access width in bits (8, 16, 32)            *)
+(*   op  "st" | "ld"          w   access width in bits (8..128)               *)
 (*   b   base kind "c" (a constant address) | "s" (a symbolic base)           *)
 (*   off byte offset from the base (0..7)                                     *)
 (*   vk  kind of the stored value: "c" a constant whose bytes are all         *)
@@ -64,7 +64,7 @@ Spec == Init /\ [][Next]_vars
 
 \* obligations of the generator itself
 TypeOK == /\ \A i \in 1..Len(hist) : hist[i].op \in {"st", "ld"} /\ hist[i].w \in Ws /\ hist[i].off \in Offs
-          /\ \A x \in DOMAIN mem : mem[x][1] \in 1..MaxStores /\ mem[x][2] \in 1..4
+          /\ \A x \in DOMAIN mem : mem[x][1] \in 1..MaxStores /\ mem[x][2] \in 1..16
 \* the incrementally maintained memory is the fold of the history, every written byte belongs to
 \* the last store covering it, and a load directly after the stores sees exactly that memory
 ReplayOK == /\ mem = Replay(hist, Len(hist))
